@@ -1,6 +1,7 @@
 """SMT semantics of (JSON) data types for symbolic values: fresh values of a type's shape, membership with the
 library's injection semantics for cross-variant pairs (conversions = MIR-translated kernels of injection.rs)."""
 import re
+import paths
 import kern, mir, smt
 from smt import land, lor, lnot, ite, fp_lit, bv64
 
@@ -11,7 +12,7 @@ TY = {"Boolean": "bool", "Integer": "i64", "Float": "f64"}
 class Sem:
     def __init__(self, fns):
         self.K = {}
-        lines = open("/repo/src/data_type/injection.rs").read().split("\n")
+        lines = open(paths.REPO + "/src/data_type/injection.rs").read().split("\n")
         for name in fns:
             m = re.match(r"injection::<impl at src/data_type/injection\.rs:(\d+):\d+: \d+:\d+>::value::\{closure#0\}$", name)
             if m:
